@@ -1407,6 +1407,10 @@ class NF:
             return recv
         if name == "join" and recv[0] == "call" and recv[1] == "iter::map":
             return ("joinmap", recv[2][0], recv[2][1], self.nf(args[0], env)[1] if self.nf(args[0], env)[0] == "lit" else "?")
+        if name == "parse" and not args and len(e.get("gargs") or []) == 1 and e["gargs"][0] in NARROW_INTEGERS:
+            # the text of a number read into a type that does not hold every number a schema may write there: the type is part of
+            # what the step does (`"4294967296".parse::<u32>()` fails)
+            return ("call", path, (recv,), ("targs", (e["gargs"][0],)))
         return ("call", path, (recv,) + tuple(self.nf(a, env) for a in args))
 
 
@@ -4070,6 +4074,8 @@ def _canon_hole(p, CE, limit):
     return [([p], ())]
 
 
+NARROW_INTEGERS = {"u8": (0, 2 ** 8 - 1), "u16": (0, 2 ** 16 - 1), "u32": (0, 2 ** 32 - 1), "i8": (-2 ** 7, 2 ** 7 - 1), "i16": (-2 ** 15, 2 ** 15 - 1),
+                   "i32": (-2 ** 31, 2 ** 31 - 1)}
 CONVERSION_STEPS = ("parse", "trim", "trim_start", "trim_end", "ok", "Some", "Ok", "as_ref", "as_str", "as_deref", "to_string", "to_owned",
                     "map", "and_then", "unwrap_or_default")
 
